@@ -626,7 +626,9 @@ def rules(tier):
             # the filter options reach the editor under their own keys
             ('C20.R11', _shared_rule('plumbing', 'option_round_trip')),
             # C20-ca: --rule reduced to its basename: a ruleset named by sub folder or path edits another ruleset
-            ('C20.R12', _shared_rule('plumbing', 'options_not_rewritten'))]
+            ('C20.R12', _shared_rule('plumbing', 'options_not_rewritten')),
+            # C20-da: terminal files written as utf-8 while config.ini records the training encoding - values come back longer than their label
+            ('C20.R13', _shared_rule('c07', 'r2_encoding_agreement'))]
 
 
 META = {
